@@ -102,8 +102,8 @@ def vendorStep (toks : List String) : Option String :=
   match toks with
   | [pol, ar, ki, na, l4, hd, bg, xm, pr, pn, dp, dm, dx, h5, m, im, g, ds, sy, la] => do
     let bits := pol.toList.map (· == '1')
-    let p : Policy2 := { siddRefusesGraphics := bits.getD 0 false, nitf20SkipsSymLab := bits.getD 1 false, nitf20SarRaises := bits.getD 2 false,
-                        guards := ⟨bits.getD 3 false, bits.getD 4 false, bits.getD 5 false, bits.getD 6 false⟩ }
+    let b := fun (i : Nat) => bits.getD i false
+    let p : Policy2 := { siddRefusesGraphics := b 0, nitf20SkipsSymLab := b 1, nitf20SarRaises := b 2, guards := ⟨b 3, b 4, b 5, b 6⟩ }
     let w : World := { arg := ← parseArg ar, kind := ← parseKind ki, name := ← parseName na, len4 := ← parseBit l4, head := ← parseHead hd,
                        big := ← parseBit bg, xmlParses := ← parseBit xm, probe := ← parseProbe pr, palsarNamed := ← parseBit pn,
                        dirProduct := ← parseBit dp, dirManifest := ← parseBit dm, dirXml := ← parseProbe dx, h5py := ← parseBit h5 }
